@@ -9,6 +9,7 @@ be observed.  Core Lean only.
 -/
 import E57.Model.Simple
 import E57.Proofs.PagesRead
+import E57.Proofs.HeaderPage
 namespace E57
 
 /-! ## 1. equivalence of paged readers -/
@@ -719,6 +720,17 @@ theorem extractXml_history_independent (r1 r2 : PR) (offset length : Nat)
     · rw [e1, e2]
       exact .inl ⟨rfl, rfl⟩
 
+/-- the header page check (`validate_header_page`) before `extract_xml` does not change what
+    `extract_xml` returns: it only moves the cursor and fills the cache -/
+theorem extractXml_after_check (r r2 : PR) (hinv : r.CacheInv) (h : checkHeaderPage r = some r2)
+    (offset length : Nat) :
+    (extractXml r2 offset length).map (·.2) = (extractXml r offset length).map (·.2) := by
+  obtain ⟨i2, s2, -⟩ := checkHeaderPage_some r r2 hinv h
+  have hs : r.SameFileInv r2 := (PR.On.self hinv).sameFileInv ((PR.On.self hinv).step s2 i2)
+  rcases extractXml_history_independent r r2 offset length hs with ⟨e1, e2⟩ | ⟨a1, a2, bs, e1, e2, -⟩
+  · rw [e1, e2]
+  · rw [e1, e2]; rfl
+
 theorem extractXml_equiv (offset length : Nat) {r1 r2 : PR} (h : r1.Equiv r2) :
     (extractXml r1 offset length = none ∧ extractXml r2 offset length = none) ∨
     (∃ a1 a2 bs, extractXml r1 offset length = some (a1, bs) ∧
@@ -1054,7 +1066,7 @@ theorem Reader.open_pr (file : Bytes) (xo : XmlOracle) (fp : FloatParse) (rd : R
     ∃ r0, PR.new ⟨file, 48⟩ rd.header.pageSize = .ok r0 ∧ r0.SameFileInv rd.pr := by
   unfold Reader.open at h
   simp only [bind, Option.bind_eq_some_iff] at h
-  obtain ⟨hd, _, r0, hnew, x, hx, _, _, _, _, _, _, _, _, hrd⟩ := h
+  obtain ⟨hd, _, r0, hnew, rc, hchk, x, hx, _, _, _, _, _, _, _, _, hrd⟩ := h
   cases hrd
   obtain ⟨r', bs⟩ := x
   have hnew' : PR.new ⟨file, 48⟩ hd.pageSize = .ok r0 := by
@@ -1064,9 +1076,12 @@ theorem Reader.open_pr (file : Bytes) (xo : XmlOracle) (fp : FloatParse) (rd : R
     | panic e => rw [hn] at hnew; cases hnew
   refine ⟨r0, hnew', ?_⟩
   have hon := PR.On.self (pr_new_inv _ _ _ hnew')
-  have : r0.On (extractXmlSt r0 hd.xmlOffset hd.xmlLength).1 :=
-    (extractXmlSt_respS hd.xmlOffset hd.xmlLength).on hon
-  rw [(extractXmlSt_spec r0 hd.xmlOffset hd.xmlLength).2 r' bs hx] at this
+  -- the header page check leaves a state of the same file behind
+  obtain ⟨ci, cs, -⟩ := checkHeaderPage_some r0 rc (pr_new_inv _ _ _ hnew') hchk
+  have honc : r0.On rc := hon.step cs ci
+  have : r0.On (extractXmlSt rc hd.xmlOffset hd.xmlLength).1 :=
+    (extractXmlSt_respS hd.xmlOffset hd.xmlLength).on honc
+  rw [(extractXmlSt_spec rc hd.xmlOffset hd.xmlLength).2 r' bs hx] at this
   exact hon.sameFileInv this
 
 /-- **C17 for an opened `E57Reader`**: after any history of operations the answer of any read
